@@ -63,6 +63,11 @@ def rule_a_f(repo, chk):
     q = Q.reachable_without(g, sp, avoid_node=lambda n: n in app, avoid_edge=pat.test_edge(lambda t, pol: pol == 'F' and src(t) == dv))
     chk.ob('a', f.ref, 'new data is appended to the carry before the buffer is split', q is None and bool(app), loc(f, sp.ast), discr='carry-plus-data')
     tails = [n for n in g.nodes if n.kind == 'stmt' and isinstance(n.ast, ast.Assign) and src(n.ast.value) in (f'{pv}.pop()', f'{pv}.pop(-1)')]
+    star_tail = None
+    t0 = sp.ast.targets[0]
+    if isinstance(t0, ast.Tuple) and len(t0.elts) == 2 and isinstance(t0.elts[0], ast.Starred) and isinstance(t0.elts[0].value, ast.Name) and isinstance(t0.elts[1], ast.Name):
+        # `*complete, remainder = buffer.split(DELIMITER)`: the split statement itself separates the tail
+        pv, star_tail, tails = t0.elts[0].value.id, t0.elts[1].id, [sp]
     chk.ob('a', f.ref, 'the piece after the last delimiter is taken out of the list of complete packets', bool(tails), loc(f, sp.ast),
            detail='expected `tail = packets.pop()` (or an equivalent) before the packets are processed', discr='tail-separated')
     loops = [n for n in g.nodes if n.kind == 'for' and src(n.ast.iter) == pv]
@@ -73,7 +78,7 @@ def rule_a_f(repo, chk):
             ok = Q.reachable_without(g, lp, avoid_node=lambda n: n is t) is None
             chk.ob('a', f.ref, 'the tail is removed before the loop over the complete packets', ok, loc(f, lp.ast), discr='tail-before-loop')
     if tails:
-        tv = src(tails[0].ast.targets[0])
+        tv = star_tail or src(tails[0].ast.targets[0])
         procs = [n for n in g.nodes if n.kind == 'stmt' and any(r == 'self' and [src(a) for a in c.args] == [tv] for r, c in pat.method_calls(n.ast, '__process_packet'))]
         checks = [n for n in g.nodes if n.kind == 'stmt' and any(call_name(c) in ('json.loads', 'loads') and tv in Q.names_used(c) for c in calls_in(n.ast))]
         stores = [n for n in g.nodes if n.kind == 'stmt' and isinstance(n.ast, ast.Assign) and src(n.ast.targets[0]) == buf and src(n.ast.value) == tv]
@@ -307,7 +312,30 @@ def rule_c_g(repo, chk):
     ch = [n for n in g.nodes if n.kind == 'stmt' and any(a == 'channels' for _r, a, _v in pat.attr_store(n.ast))]
     need(ch, 'C19.c: load_event does not set channels')
     rets = [n for n in g.nodes if n.kind == 'stmt' and isinstance(n.ast, ast.Return)]
-    checks = [n for n in g.nodes if n.kind == 'test' and 'isinstance(' in src(n.ast) and 'str' in src(n.ast) and 'channel' in src(n.ast)]
+    chv = {src(t) for n in ch for t in n.ast.targets}        # the expression(s) the channels are stored in (`e.channels`)
+
+    def is_str_test(t, x):
+        return isinstance(t, ast.Call) and call_name(t) == 'isinstance' and len(t.args) == 2 and src(t.args[0]) == x and src(t.args[1]) in ('str', '(str,)')
+    # form 1: `if not all(isinstance(c, str) for c in e.channels): raise`
+    gates = []
+    for n in g.nodes:
+        if n.kind != 'test' or not isinstance(n.ast, ast.Call) or call_name(n.ast) != 'all' or len(n.ast.args) != 1:
+            continue
+        ge = n.ast.args[0]
+        if isinstance(ge, (ast.GeneratorExp, ast.ListComp)) and len(ge.generators) == 1 and not ge.generators[0].ifs and src(ge.generators[0].iter) in chv \
+                and isinstance(ge.generators[0].target, ast.Name) and is_str_test(ge.elt, ge.generators[0].target.id):
+            if any(e.kind == 'F' and e.dst.kind == 'stmt' and isinstance(e.dst.ast, ast.Raise) for e in n.succ):
+                gates.append(n)
+    # form 2: `for c in e.channels: if not isinstance(c, str): raise` — every iteration passes the test first, and its failing edge raises
+    for lp in g.nodes:
+        if lp.kind != 'for' or src(lp.ast.iter) not in chv or not isinstance(lp.ast.target, ast.Name):
+            continue
+        tests = [n for n in g.nodes if n.kind == 'test' and ('loop', lp.ast) in n.ctx and is_str_test(n.ast, lp.ast.target.id)
+                 and any(e.kind == 'F' and e.dst.kind == 'stmt' and isinstance(e.dst.ast, ast.Raise) for e in n.succ)]
+        body_entry = [e.dst for e in lp.succ if e.kind in ('T', 'n') and e.dst is not None and ('loop', lp.ast) in e.dst.ctx]
+        if tests and body_entry and all(b_ in tests for b_ in body_entry):
+            gates.append(lp)
+    checks = gates
     ok = bool(checks)
     path = None
     for r in rets:
@@ -315,11 +343,9 @@ def rule_c_g(repo, chk):
         if q is not None:
             ok = False
             path = q
-    # the failing edge raises
+    # the channels are not re-bound after the check
     for c in checks:
-        fails = [e for e in c.succ if e.kind in ('T', 'F')]
-        raising = [e for e in fails if e.dst.kind == 'stmt' and isinstance(e.dst.ast, ast.Raise)]
-        if not raising:
+        if any(Q.reaches(c, n) and n is not c for n in ch):
             ok = False
     chk.ob('c', le.ref, 'an event only leaves load_event after its channels were checked to be strings (else an exception the caller handles)', ok,
            loc(le, ch[0].ast), path=pat.path_lines(path) if path else None, discr='channels-checked')
@@ -346,6 +372,16 @@ def rule_c_g(repo, chk):
         conds = ' and '.join(src(i) for gen in dc.generators for i in gen.ifs).replace('"', "'")
         kv = src(dc.key)
         ok = f"not {kv}.startswith('__')" in conds and f'{kv} not in META_EXCLUDE' in conds
+    if not comp:
+        # loop form: `for k, v in data['meta'].items(): if <reserved>: continue; meta[k] = v`
+        gl = lv.cfg()
+        puts = [n for n in gl.nodes if n.kind == 'stmt' and isinstance(n.ast, ast.Assign) and isinstance(n.ast.targets[0], ast.Subscript) and any(k == 'loop' for k, _a in n.ctx)]
+        ok = bool(puts)
+        for n in puts:
+            kv = src(n.ast.targets[0].slice)
+            q1 = pat.guarded_by(gl, n, pat.test_edge(lambda t, pol: pol == 'F' and src(t).replace('"', "'") == f"{kv}.startswith('__')"))
+            q2 = pat.guarded_by(gl, n, pat.test_edge(lambda t, pol: pat.fact_matches(pat.compare_fact(t, pol), kv, ('not in',), 'META_EXCLUDE')))
+            ok = ok and q1 is None and q2 is None
     chk.ob('g', lv.ref, 'meta data of a returned value is filtered the same way', ok, loc(lv, lv.node), discr='load_value-filter')
     pv = need(_m(repo.cls(NODE_PROTOCOL, 'Protocol'), '__process_packet_value'), 'C19.g: __process_packet_value missing')
     gp = pv.cfg()
